@@ -282,8 +282,8 @@ func (hm *HashMap) Close() error {
 func (hm *HashMap) UpdateCheckpoint() error {
 	var checkpointByte [LenCheckpoint]byte
 	binary.LittleEndian.PutUint64(checkpointByte[:], uint64(hm.checkpoint))
-	hm.data.WriteAt(checkpointByte[:], PosCheckpoint)
-	return nil
+	_, err := hm.data.WriteAt(checkpointByte[:], PosCheckpoint)
+	return err
 }
 
 func (hm *HashMap) ReadCheckpoint() pocutil.PoCValue {
